@@ -1,4 +1,4 @@
-(* Finding F_C08_2 (DESIGN D8), repaired by repo commit 75da28f:
+(* Finding F_C08_2 (DESIGN D8), repaired by repo commit 71e9dbc:
    BitcoinOnChain.GetVoutAndVerify took the first output with the swap amount and
    only then compared its script; with a change output of exactly the swap amount
    placed first it returned (false, 0) and every caller drops the flag.  The full
